@@ -4,6 +4,14 @@ configurations, dynamic schemas, feature flags, schema validators) x histories o
 the resulting configuration; after every step the whole configuration (values, default marks, dynamic
 fields, object identities) is compared with Config.v (`run_configops`).  Thin per-property modules
 (s_co01 ... s_co15) re-export this one with the property's own direct oracle and generator emphasis.
+
+Configuration OBJECTS as operands (`cfg.sub = other`, constructor keyword, `cfg.items.append(other)` / `[i] = other` /
+`insert(i, other)`): a case carries the recipe (`Obj`: schema node + operations applied to a fresh configuration of it), the
+implementation side builds the object with the real library from the same schema node, the model builds it itself
+(Config.detached).  The object is always built from the schema of the slot it is offered to, or offered to a slot that cannot
+take a configuration at all (leaf / list field / undeclared key).  NOT generated: an object of a foreign schema offered to a
+sub-configuration slot or a list (the code accepts it unchecked -- oracle-only stream `rejects`, finding F29 -- and the model has
+no configuration that carries another schema than its slot's), objects stored raw in an AnyField / dynamic key (Unmodelled).
 """
 import copy
 import itertools
@@ -18,6 +26,42 @@ CASE_TYPE = "cocase"
 KEYS = ["a", "b", "c", "n", "s", "t", "flag", "x1", "y_2", "name"]
 SUBKEYS = ["sub", "inner", "opts", "db"]
 LISTKEYS = ["items", "rows"]
+
+# operations whose operand is a configuration OBJECT built on the side (never a plain map):
+#   ("setobj", key, Obj, route)  cfg.key = other | root["a.key"] = other        ("appendobj", key, Obj)  cfg.key.append(other)
+#   ("setidxobj", key, i, Obj)   cfg.key[i] = other                              ("insertobj", key, i, Obj)  cfg.key.insert(i, other)
+#   ("again", kind, key, i, ops) the object offered last was NOT taken (refused, or the walk failed): the caller still holds it,
+#                                applies `ops` to it through its own reference and offers that very object again by `kind`
+#   ("alias", steps, op)         `op` applied through the reference the caller kept to the object handed over last; `steps` is
+#                                where the model finds that object below the addressed configuration (first step) and the rest
+#                                of the way to the configuration `op` addresses inside it
+OBJ_KINDS = ("setobj", "appendobj", "setidxobj", "insertobj")
+
+
+class Obj:
+    """a configuration built on the side: a fresh configuration of the schema node at static schema path `sp` (keys from the
+    root schema; a list node stands for its item schema), to which `ops` are applied in order, failures ignored"""
+    def __init__(self, sp, ops=()):
+        self.sp = tuple(sp)
+        self.ops = list(ops)
+
+    def __deepcopy__(self, memo):
+        return self
+
+    def __repr__(self):
+        return "Obj(%r, %r)" % (self.sp, self.ops)
+
+
+def obj_of(o):
+    return o[2] if o[0] == "setobj" else o[-1]
+
+
+def node_by_sp(fields, sp):
+    nd, cur = None, fields
+    for k in sp:
+        nd = dict(cur)[k]
+        cur = nd["fields"]
+    return nd
 
 
 # ---------------------------------------------------------------------------------------------
@@ -77,10 +121,66 @@ def rfields(rng, depth, vt, allow_flag=False):
                                "ct": rng.random() < 0.3}))
         for k in rng.sample(LISTKEYS, rng.choice([0, 0, 1])):
             item_fields = rfields(rng, max(0, depth - 2), vt)
-            fields.append((k, {"t": "cfglist", "required": rng.random() < 0.25, "vals": rvals(rng, item_fields, vt),
-                               "fields": item_fields, "ct": rng.random() < 0.3}))
+            nd = {"t": "cfglist", "required": rng.random() < 0.25, "vals": rvals(rng, item_fields, vt),
+                  "fields": item_fields, "ct": rng.random() < 0.3}
+            if rng.random() < 0.4:
+                nd["default"] = rdefault_items(rng, item_fields, vt, nd["vals"])
+            fields.append((k, nd))
     rng.shuffle(fields)
     return fields
+
+
+def rdefault_items(rng, item_fields, vt, vals):
+    """ListField(schema, default=[maps]) / default=lambda: [maps]: 0-3 maps over the LEAF keys of the item schema that are known
+    to load and validate (the premise of C01: declared defaults are themselves valid -- the constructor raises otherwise);
+    None when the item schema has a required leaf this generator cannot give a value"""
+    maps = []
+    for _ in range(rng.choice([0, 1, 2, 2, 3])):
+        m = vtree(rng, item_fields)
+        if not default_item_ok(item_fields, m, vt, vals):
+            return None
+        items = list(m.items())
+        rng.shuffle(items)
+        maps.append(dict(items))
+    return {"callable": rng.random() < 0.4, "maps": maps}
+
+
+def default_item_ok(item_fields, m, vt, vals):
+    """independent re-statement: every given value meets its leaf's constraints as it stands, every required leaf ends up set,
+    no schema validator of the item schema refuses the result"""
+    decl = dict(item_fields)
+    for k, nd in item_fields:
+        if nd["t"] != "leaf":
+            continue
+        v = m[k] if k in m else (None if nd["callable"] else nd["default"])
+        if k in m and (not leaf_ok(nd, v) or v is None):
+            return False
+        if nd["required"] and (v is None or v == ""):
+            return False
+    for k, nd in item_fields:
+        if nd["t"] == "leaf" and nd["kind"][0] == "flag" and not (m[k] if k in m else nd["default"]):
+            return True           # the item is switched off: its validation is skipped altogether
+    if not all(fresh_valid(nd) for k, nd in item_fields if nd["t"] != "leaf"):
+        return False              # a nested configuration of the fresh item would not validate
+    for n in vals:
+        key, badv = dict((a, (b, c)) for a, b, c in vt)[n]
+        v = m.get(key, decl[key]["default"] if key in decl else None)
+        if v == badv:
+            return False
+    return True
+
+
+def fresh_valid(nd):
+    """does a freshly built value of this node pass whole-configuration validation (by the declarations alone)"""
+    if nd["t"] == "leaf":
+        d = nd["default"]
+        return not (nd["required"] and (d is None or d == ""))
+    if nd["t"] == "cfglist":
+        return not nd["required"] or bool((nd.get("default") or {}).get("maps"))
+    for k, sub in nd["fields"]:
+        if sub["t"] == "leaf" and sub["kind"][0] == "flag" and not sub["default"]:
+            return True
+    return all(fresh_valid(sub) for k, sub in nd["fields"])
 
 
 def rvals(rng, fields, vt):
@@ -202,6 +302,9 @@ def rop(rng, case_fields, root_dyn, emphasis):
         if tree is None:
             tree = {}
         return (ps, ("loads", rng.choice(FORMATS), tree, rng.choice(DAMAGE)))
+    r -= w.get("loads", 0)
+    if r < w.get("obj", 0):
+        return robj_op(rng, case_fields, root_dyn, ps, fields)
     lists = [(kk, n2) for kk, n2 in fields if n2["t"] == "cfglist"]
     if not lists:
         return (ps, ("set", k, rvalue(rng, nd), "attr"))
@@ -215,12 +318,96 @@ def rop(rng, case_fields, root_dyn, emphasis):
     return (ps, ("setidx", kk, rng.choice([0, 0, 1, 2, 5]), item))
 
 
+def vtree(rng, fields):
+    """a map that sets every required leaf of `fields` to a plausible valid value (and a few others)"""
+    t = {}
+    for k, nd in fields:
+        if nd["t"] != "leaf" or not (nd["required"] or rng.random() < 0.3):
+            continue
+        kind = nd["kind"]
+        if kind[0] == "int":
+            lo, hi = kind[1], kind[2]
+            v = lo + 1 if lo is not None and (hi is None or lo + 1 <= hi) else (lo if lo is not None else (min(7, hi) if hi is not None else 7))
+        elif kind[0] == "str":
+            v = "abcd"[:kind[2]] if kind[2] is not None else "abcd"
+        elif kind[0] in ("bool", "flag"):
+            v = True
+        else:
+            v = 1
+        t[k] = v
+    return t
+
+
+DETACHED = {"set": 0.6, "load": 0.25, "reset": 0.1, "validate": 0.0, "loads": 0.0, "obj": 0.0}
+
+
+def rdops(rng, nd):
+    """what happens to the object before it is handed over: often its required fields get values, then a few operations"""
+    dyn = nd["dyn"] if nd["t"] == "sub" else False
+    ops = []
+    if rng.random() < 0.6:
+        ops.append(((), ("load", vtree(rng, nd["fields"]), False)))
+    for _ in range(rng.choice([0, 0, 1, 1, 2])):
+        ops.append(rop(rng, nd["fields"], dyn, DETACHED))
+    return ops
+
+
+def dyn_at(case_fields, root_dyn, ps):
+    if not ps:
+        return root_dyn
+    nd = node_by_sp(case_fields, tuple(p[1] for p in ps))
+    return nd["dyn"] if nd["t"] == "sub" and ps[-1][0] == "key" else False
+
+
+def all_cfg_nodes(fields, sp=()):
+    out = []
+    for k, nd in fields:
+        if nd["t"] != "leaf":
+            out.append((sp + (k,), nd))
+            out += all_cfg_nodes(nd["fields"], sp + (k,))
+    return out
+
+
+def robj_op(rng, case_fields, root_dyn, ps, fields):
+    """hand a configuration object to the configuration at ps: mostly to a slot of its own schema, sometimes to a slot that
+    cannot take it (leaf field, list field, undeclared key).  Never to an AnyField or a dynamic key (the object would be stored
+    raw: outside the value model), never an object of a foreign schema to a sub-configuration slot (see module docstring)."""
+    sp = tuple(p[1] for p in ps)
+    subs = [(k, nd) for k, nd in fields if nd["t"] == "sub"]
+    lists = [(k, nd) for k, nd in fields if nd["t"] == "cfglist"]
+    r = rng.random()
+    if lists and (r < 0.45 or not subs) and r < 0.88:
+        k, nd = rng.choice(lists)
+        src = Obj(sp + (k,), rdops(rng, nd))
+        r2 = rng.random()
+        if r2 < 0.45:
+            return (ps, ("appendobj", k, src))
+        if r2 < 0.7:
+            return (ps, ("insertobj", k, rng.choice([0, 1, -1, -2, 5, -7, 2]), src))
+        return (ps, ("setidxobj", k, rng.choice([0, 0, 1, 2, 5]), src))
+    if subs and r < 0.88:
+        k, nd = rng.choice(subs)
+        return (ps, ("setobj", k, Obj(sp + (k,), rdops(rng, nd)), rng.choice(["attr", "dotted"])))
+    nodes = all_cfg_nodes(case_fields)
+    if not nodes:
+        k, nd = rng.choice(fields)
+        return (ps, ("set", k, rvalue(rng, nd), "attr"))
+    ssp, snd = rng.choice(nodes)
+    targets = [k for k, nd in fields if (nd["t"] == "leaf" and nd["kind"][0] != "any") or nd["t"] == "cfglist"]
+    if not dyn_at(case_fields, root_dyn, ps):
+        targets.append("nokey")
+    if not targets:
+        k, nd = rng.choice(fields)
+        return (ps, ("set", k, rvalue(rng, nd), "attr"))
+    return (ps, ("setobj", rng.choice(targets), Obj(ssp, rdops(rng, snd)), rng.choice(["attr", "dotted"])))
+
+
 EMPHASIS = {
-    "C01": {"set": 0.5, "load": 0.2, "reset": 0.05, "validate": 0.02, "loads": 0.06},
-    "C06": {"set": 0.45, "load": 0.1, "reset": 0.05, "validate": 0.02, "loads": 0.2},
-    "C12": {"set": 0.4, "load": 0.18, "reset": 0.25, "validate": 0.02, "loads": 0.04},
-    "C15": {"set": 0.5, "load": 0.25, "reset": 0.0, "validate": 0.02, "loads": 0.08},
-    "C11": {"set": 0.25, "load": 0.35, "reset": 0.03, "validate": 0.2, "loads": 0.08},
+    "C01": {"set": 0.5, "load": 0.2, "reset": 0.05, "validate": 0.02, "loads": 0.06, "obj": 0.07},
+    "C06": {"set": 0.45, "load": 0.1, "reset": 0.05, "validate": 0.02, "loads": 0.2, "obj": 0.08},
+    "C12": {"set": 0.4, "load": 0.18, "reset": 0.25, "validate": 0.02, "loads": 0.04, "obj": 0.06},
+    "C15": {"set": 0.5, "load": 0.25, "reset": 0.0, "validate": 0.02, "loads": 0.08, "obj": 0.07},
+    "C11": {"set": 0.2, "load": 0.35, "reset": 0.03, "validate": 0.2, "loads": 0.08, "obj": 0.08},
 }
 FORMATS = ["json", "yaml", "bson", "pickle", "xml"]
 DAMAGE = ["none", "none", "truncate", "empty", "garbage", "wrongroot", "truncate3"]
@@ -249,18 +436,43 @@ def untuple(t):
     return t
 
 
-def rcase(rng, prop, nops):
+def rcase(rng, prop, nops, objs=False):
+    """objs: also hand over configuration objects (operations, constructor keywords); the streams that borrow this generator
+    for other purposes (mask, roundtrip) keep the plain alphabet"""
     vt = []
     fields = rfields(rng, rng.choice([0, 1, 2, 2, 3]), vt)
     root_dyn = rng.random() < 0.15
     root_vals = rvals(rng, fields, vt)
     kw = {}
     if rng.random() < 0.35:
-        for k, nd in rng.sample(fields, min(len(fields), rng.randint(1, 3))):
-            kw[k] = rvalue(rng, nd)
+        picked = rng.sample(fields, min(len(fields), rng.randint(1, 3)))
+        if objs:
+            # configuration objects first: they are all built before the constructor runs
+            for k, nd in picked:
+                if nd["t"] == "sub" and rng.random() < 0.5:
+                    kw[k] = Obj((k,), rdops(rng, nd))
+        for k, nd in picked:
+            if k not in kw:
+                kw[k] = rvalue(rng, nd)
         if root_dyn and rng.random() < 0.3:
             kw["extra"] = 5
-    ops = [rop(rng, fields, root_dyn, EMPHASIS[prop]) for _ in range(rng.randint(1, nops))]
+    emph = EMPHASIS[prop] if objs else dict(EMPHASIS[prop], obj=0.0)
+    ops = []
+    for _ in range(rng.randint(1, nops)):
+        op = rop(rng, fields, root_dyn, emph)
+        ops.append(op)
+        if op[1][0] in OBJ_KINDS[1:] and rng.random() < 0.35:
+            # whatever became of the object: if the caller still holds it (refused / never offered) it is offered again, as it
+            # is or after its required fields got values; if it was taken this step is outside the model on both sides
+            nd = node_by_sp(fields, obj_of(op[1]).sp)
+            fix = [((), ("load", vtree(rng, nd["fields"]), False))] if rng.random() < 0.5 else []
+            kind = rng.choice(OBJ_KINDS[1:])
+            ops.append((op[0], ("again", kind, op[1][1], None if kind == "appendobj" else rng.choice([0, 1, -1, 5]) if kind == "insertobj" else rng.choice([0, 1, 5]), fix)))
+        if op[1][0] == "setobj" and not op[0] and dict(fields).get(op[1][1], {}).get("t") == "sub" and rng.random() < 0.4:
+            # the caller goes on using its own reference to the object it has just assigned (root level: the slot exists)
+            nd = dict(fields)[op[1][1]]
+            ips, iop = rop(rng, nd["fields"], nd["dyn"], DETACHED)
+            ops.append(((), ("alias", [("key", op[1][1])] + list(ips), iop)))
     return {"vt": vt, "dyn": root_dyn, "vals": root_vals, "fields": fields, "kw": kw, "ops": ops}
 
 
@@ -347,6 +559,124 @@ def matrix_cases():
         ((), ("load", {"rows": []}, True)), ((), ("load", {"rows": None}, True)), ((), ("load", {"rows": [{"n": 2}]}, True)),
         ((), ("load", {"rows": [{"n": 2}], "typed": {"need": 1}}, True)), ((), ("append", "rows", {"n": 3})), ((), ("reset", "rows")),
     ]
+    ops_b += [((), ("validate", False)), ((), ("validate", True))]
+    # ---- configuration objects ----
+    K = lambda *ks: tuple(("key", k) for k in ks)       # noqa: E731
+    S = lambda k, v: ((), ("set", k, v, "attr"))        # noqa: E731
+    sub_srcs = [[], [S("a", 9)], [S("a", 99)], [(K("inner"), ("set", "t", "bad!", "attr"))],
+                [(K("inner"), ("set", "flag", False, "attr")), (K("inner"), ("set", "t", "bad!", "attr"))],
+                [((), ("load", {"a": 2, "b": "yes", "inner": {"t": "q"}}, True))]]
+    inner_srcs = [[], [S("t", "zz")], [S("t", "bad!")], [S("flag", "off"), S("t", "bad!")], [S("t", None)]]
+    item_srcs = [[], [S("n", 4)], [S("n", 44)], [S("n", 4), S("s", " AbC ")], [S("s", "x")], [S("n", "7"), S("s", "TOOLONG")]]
+    obj_ops = []
+    for d in sub_srcs:
+        obj_ops.append(((), ("setobj", "sub", Obj(("sub",), d), "attr")))
+    obj_ops.append(((), ("setobj", "sub", Obj(("sub",), sub_srcs[1]), "dotted")))
+    for d in inner_srcs:
+        obj_ops.append((K("sub"), ("setobj", "inner", Obj(("sub", "inner"), d), "dotted" if len(d) == 1 else "attr")))
+    # a configuration object is not a value for a leaf field, for a list field, for an undeclared key
+    for k in ("n", "s", "z", "e", "items", "nokey"):
+        obj_ops.append(((), ("setobj", k, Obj(("sub",), sub_srcs[1]), "attr")))
+    obj_ops.append(((), ("setobj", "items", Obj(("items",), item_srcs[1]), "dotted")))
+    obj_ops.append((K("sub"), ("setobj", "a", Obj(("sub", "inner"), []), "dotted")))
+    obj_ops.append((K("sub"), ("setobj", "b", Obj(("items",), item_srcs[1]), "attr")))
+    obj_ops.append((K("sub", "inner"), ("setobj", "t", Obj(("sub", "inner"), []), "attr")))
+    obj_ops.append((K("sub", "inner"), ("setobj", "flag", Obj(("sub", "inner"), []), "attr")))
+    for d in item_srcs:
+        obj_ops.append(((), ("appendobj", "items", Obj(("items",), d))))
+        obj_ops.append(((), ("insertobj", "items", 0, Obj(("items",), d))))
+        obj_ops.append(((), ("setidxobj", "items", 1, Obj(("items",), d))))
+    for i in (-1, 1, 9, -9):
+        obj_ops.append(((), ("insertobj", "items", i, Obj(("items",), item_srcs[1]))))
+        obj_ops.append(((), ("insertobj", "items", i, Obj(("items",), item_srcs[0]))))
+    for i in (0, 2, 7):
+        obj_ops.append(((), ("setidxobj", "items", i, Obj(("items",), item_srcs[1]))))
+        obj_ops.append(((), ("setidxobj", "items", i, Obj(("items",), item_srcs[2]))))
+    probes = [((), ("validate", False)), ((), ("validate", True)), (K("sub"), ("validate", False)), ((), ("reset", "sub")),
+              ((), ("load", {"n": 9}, True)), ((), ("set", "sub", {"a": 7}, "attr")), (K("sub"), ("set", "a", 8, "dotted")),
+              (K("sub", "inner"), ("set", "t", "fine", "attr")), ((("item", "items", 2),), ("set", "n", 8, "attr")),
+              ((), ("append", "items", {"n": 4}))]
+    # the caller keeps using ITS reference to the object after handing it over: same object, so the configuration moves with it
+    aliased = []
+    for d in (sub_srcs[0], sub_srcs[3]):
+        for inn in (((), ("set", "a", 5, "attr")), ((), ("set", "a", 99, "dotted")), (K("inner"), ("set", "t", "ok now", "attr")),
+                      (K("inner"), ("set", "t", "", "dotted")), ((), ("reset", "a")), ((), ("load", {"b": "no"}, True)),
+                      ((), ("validate", False)), ((), ("set", "inner", {"t": "new"}, "attr"))):
+            aliased.append([((), ("setobj", "sub", Obj(("sub",), d), "attr")), ((), ("alias", [("key", "sub")] + list(inn[0]), inn[1]))])
+    for inn in (S("t", "later"), S("t", "bad!"), S("flag", False)):
+        aliased.append([(K("sub"), ("setobj", "inner", Obj(("sub", "inner"), []), "attr")),
+                        (K("sub"), ("alias", [("key", "inner")] + list(inn[0]), inn[1])), ((), ("validate", True))])
+    aliased_items = []          # on a list that already holds two items: the appended object is items[2], the inserted one items[0]
+    for inn in (S("n", 9), S("n", 99), S("s", "zz"), ((), ("reset", "n"))):
+        aliased_items.append([((), ("appendobj", "items", Obj(("items",), item_srcs[1]))),
+                              ((), ("alias", [("item", "items", 2)] + list(inn[0]), inn[1])), ((), ("validate", True))])
+        aliased_items.append([((), ("insertobj", "items", 0, Obj(("items",), item_srcs[1]))),
+                              ((), ("alias", [("item", "items", 0)] + list(inn[0]), inn[1])), ((), ("validate", True))])
+        aliased_items.append([((), ("setidxobj", "items", 1, Obj(("items",), item_srcs[1]))),
+                              ((), ("alias", [("item", "items", 1)] + list(inn[0]), inn[1])), ((), ("validate", False))])
+    # a refused object is still the caller's: offered again as it is it must be refused again, in the same way; after the caller
+    # has repaired it through its own reference it is taken
+    A = lambda kind, k, i, dops: ((), ("again", kind, k, i, dops))        # noqa: E731
+    unset = ((), ("appendobj", "items", Obj(("items",), [])))
+    reoffered = [
+        [unset, A("appendobj", "items", None, []), A("appendobj", "items", None, []), ((), ("validate", True))],
+        [unset, A("insertobj", "items", 0, []), A("setidxobj", "items", 0, []), A("setidxobj", "items", 9, []), ((), ("validate", True))],
+        [unset, A("appendobj", "items", None, [S("n", 44)]), A("appendobj", "items", None, [S("n", 4)]), ((), ("validate", True)),
+         A("appendobj", "items", None, [])],
+        [((), ("insertobj", "items", 0, Obj(("items",), [S("s", "x")]))), A("insertobj", "items", 1, []), A("insertobj", "items", 1, [S("n", 0)]),
+         ((), ("alias", [("item", "items", 1)], ("set", "n", 11, "attr"))), ((), ("validate", False))],
+        [((), ("setidxobj", "items", 1, Obj(("items",), []))), A("setidxobj", "items", 1, []), A("setidxobj", "items", 1, [S("n", 3)]),
+         ((), ("validate", True))],
+        [((), ("setidxobj", "items", 7, Obj(("items",), [S("n", 3)]))), A("setidxobj", "items", 0, []), ((), ("validate", True))],
+        [((), ("setobj", "n", Obj(("sub",), [S("a", 9)]), "attr")), A("setobj", "s", None, []), A("setobj", "sub", None, [S("a", 10)]),
+         (K("sub"), ("set", "a", 11, "dotted"))],
+        [((), ("setobj", "items", Obj(("items",), [S("n", 3)]), "attr")), A("appendobj", "items", None, []), ((), ("validate", True))],
+        [(K("sub", "inner"), ("setobj", "t", Obj(("sub", "inner"), [S("t", "bad!")]), "attr")),
+         (K("sub"), ("again", "setobj", "inner", None, [])), ((), ("validate", True))],
+    ]
+    reoffered_b = [
+        [((), ("set", "rows", [{"n": 1}], "attr")), ((), ("appendobj", "rows", Obj(("rows",), []))), A("appendobj", "rows", None, []),
+         A("insertobj", "rows", 0, [S("n", 2)]), ((), ("validate", True))],
+        [((), ("appendobj", "rows", Obj(("rows",), [S("n", 2)]))), ((), ("set", "rows", [{"n": 1}], "attr")), A("appendobj", "rows", None, []),
+         ((), ("validate", False))],
+    ]
+    typed_srcs = [[], [S("need", 5)], [S("need", 5), S("t", "bad!")], [S("need", "x")], [S("t", "bad!")]]
+    row_srcs = [[], [S("n", 3)], [S("n", 30)]]
+    obj_ops_b = [((), ("setobj", "typed", Obj(("typed",), d), "attr")) for d in typed_srcs]
+    obj_ops_b += [((), ("setobj", "typed", Obj(("typed",), typed_srcs[1]), "dotted")), ((), ("setobj", "n", Obj(("typed",), []), "attr")),
+                  ((), ("setobj", "rows", Obj(("rows",), row_srcs[1]), "attr")), ((), ("setobj", "typed", Obj(("typed",), typed_srcs[0]), "dotted"))]
+    for d in row_srcs:
+        obj_ops_b += [((), ("appendobj", "rows", Obj(("rows",), d))), ((), ("insertobj", "rows", 0, Obj(("rows",), d))),
+                      ((), ("setidxobj", "rows", 0, Obj(("rows",), d)))]
+    probes_b = [((), ("validate", False)), ((), ("validate", True)), ((), ("set", "rows", [{"n": 1}], "attr")), ((), ("reset", "typed")),
+                (K("typed"), ("set", "need", 5, "dotted")), ((), ("load", {"typed": {"need": 3}}, True)), ((), ("load", {"n": 4}, True))]
+    # ---- lists of configurations with declared default items (constant and callable) ----
+    fields_d = [("n", {"t": "leaf", "kind": ("int", 1, 100), "required": False, "default": 3, "callable": True, "sensitive": False}),
+                ("items", {"t": "cfglist", "required": False, "vals": [], "fields": item,
+                           "default": {"callable": False, "maps": [{"n": 1}, {"s": " AbC ", "n": "2"}]}}),
+                ("rows", {"t": "cfglist", "required": True, "vals": [], "fields": item, "ct": True,
+                          "default": {"callable": True, "maps": [{"n": 3}]}}),
+                ("none", {"t": "cfglist", "required": True, "vals": [], "fields": item, "default": {"callable": False, "maps": []}}),
+                ("sub", {"t": "sub", "dyn": False, "vals": [], "fields": [
+                    ("a", {"t": "leaf", "kind": ("int", None, 20), "required": False, "default": 5, "callable": True, "sensitive": False}),
+                    ("lst", {"t": "cfglist", "required": False, "vals": [0], "fields": inner,
+                             "default": {"callable": True, "maps": [{"t": "one"}, {"flag": False, "t": "two"}]}})]})]
+    base_d = {"vt": vt, "dyn": False, "vals": [], "fields": fields_d}
+    I = lambda k, i: (("item", k, i),)          # noqa: E731,E741
+    ops_d = [((), ("validate", False)), ((), ("validate", True)),
+             (I("items", 0), ("reset", "n")), (I("items", 1), ("set", "s", "TOOLONG", "attr")), (I("items", 1), ("set", "n", 7, "attr")),
+             (I("items", 0), ("load", {"n": None}, False)), (I("items", 0), ("validate", False)),
+             ((), ("reset", "items")), ((), ("reset", "rows")), ((), ("reset", "none")), ((), ("reset", "sub")), (K("sub"), ("reset", "lst")),
+             ((), ("append", "items", {"n": 4})), ((), ("append", "items", {"n": 44})), ((), ("insert", "rows", 0, {"n": 5})),
+             ((), ("append", "none", {"n": 1})), ((), ("setidx", "items", 0, {"n": 6})),
+             ((), ("appendobj", "items", Obj(("items",), [S("n", 4)]))), ((), ("appendobj", "rows", Obj(("rows",), []))),
+             ((), ("set", "items", [{"n": 7}], "attr")), ((), ("set", "items", None, "attr")), ((), ("set", "rows", [], "attr")),
+             ((), ("set", "none", [{"n": 2}], "dotted")), ((), ("load", {"items": [{"n": 9}]}, True)), ((), ("load", {}, True)),
+             ((), ("load", {"rows": None}, True)), ((), ("set", "sub", {"a": 1}, "attr")), ((), ("set", "sub", {"lst": []}, "attr")),
+             ((), ("setobj", "sub", Obj(("sub",), [S("a", 2)]), "attr")), ((), ("setobj", "sub", Obj(("sub",), [((("item", "lst", 0),), ("set", "t", "bad!", "attr"))]), "attr")),
+             (K("sub") + I("lst", 0), ("set", "t", "bad!", "attr")), (K("sub") + I("lst", 1), ("set", "t", "bad!", "attr")),
+             (K("sub") + I("lst", 1), ("set", "flag", True, "attr")), (K("sub") + I("lst", 0), ("reset", "t")),
+             (I("rows", 0), ("reset", "n")), (I("rows", 0), ("set", "n", 99, "attr")), (K("sub"), ("validate", False))]
     cases = []
     # a dynamic root: several keys added at run time, by assignment and by load, then read back
     dyn_ops = [((), ("set", "extra", 1, "attr")), ((), ("set", "nokey", "v", "dotted")), ((), ("set", "zz", [1], "attr")),
@@ -382,6 +712,52 @@ def matrix_cases():
                      [((), ("load", {"off": {"enabled": True}}, True))], [((), ("load", {"off": {"enabled": True, "need": 1}}, True)), ((), ("validate", False))],
                      [((), ("loads", "json", {}, "none"))]):
             cases.append({"vt": [], "dyn": False, "vals": [], "fields": fl, "kw": {}, "ops": list(tail), "kind": "matrix-off"})
+    for o in ops_d:
+        cases.append(dict(base_d, kw={}, ops=[o], kind="matrix-dflt"))
+    for idx, (o1, o2) in enumerate(itertools.product(ops_d, repeat=2)):
+        if idx % 3 == 0:
+            cases.append(dict(base_d, kw={}, ops=[o1, o2, ((), ("validate", True))], kind="matrix-dflt2"))
+    for kwd in ({"items": [{"n": 5}]}, {"rows": [{"n": 1}, {"n": 2}], "sub": {"a": 3}}, {"none": []}, {"sub": Obj(("sub",), [])},
+                {"sub": {"lst": [{"t": "k"}]}}, {"n": 9}):
+        cases.append(dict(base_d, kw=kwd, ops=[((), ("validate", True)), ((), ("reset", "items")), ((), ("reset", "sub"))], kind="matrix-ctor"))
+    kw2 = {"items": [{"n": 1}, {"n": 2, "s": "two"}]}
+    for i, o in enumerate(obj_ops):
+        cases.append(dict(base, kw={}, ops=[o], kind="matrix-obj"))
+        cases.append(dict(base, kw=kw2, ops=[o], kind="matrix-obj"))
+        # followed by both validations, and by a rotating choice of the other probes
+        for pr in probes[:2] + [probes[2 + (i + j) % (len(probes) - 2)] for j in (0, 3, 5)]:
+            cases.append(dict(base, kw=kw2, ops=[o, pr], kind="matrix-obj2"))
+        cases.append(dict(base, kw={}, ops=[((), ("set", "items", [], "attr")), o, ((), ("validate", True))], kind="matrix-obj2"))
+    for o1 in obj_ops[::4]:
+        for o2 in obj_ops[1::6]:
+            cases.append(dict(base, kw=kw2, ops=[o1, o2, ((), ("validate", True))], kind="matrix-obj2"))
+    for seq in reoffered:
+        cases.append(dict(base, kw=kw2, ops=seq, kind="matrix-again"))
+        if not any(o[0] == "alias" for _, o in seq):        # (the alias step names a position in the two-item list)
+            cases.append(dict(base, kw={"items": []}, ops=seq, kind="matrix-again"))
+        for n in range(2, len(seq)):
+            cases.append(dict(base, kw=kw2, ops=seq[:n], kind="matrix-again"))
+    for seq in reoffered_b:
+        cases.append(dict(base_b, kw={}, ops=seq, kind="matrix-again"))
+    for seq in aliased:
+        cases.append(dict(base, kw={}, ops=seq, kind="matrix-alias"))
+    for seq in aliased_items:
+        cases.append(dict(base, kw=kw2, ops=seq, kind="matrix-alias"))
+    for i, o in enumerate(obj_ops_b):
+        cases.append(dict(base_b, kw={}, ops=[o], kind="matrix-objb"))
+        for pr in probes_b:
+            cases.append(dict(base_b, kw={}, ops=[o, pr], kind="matrix-objb"))
+        for pr in probes_b[2:]:
+            cases.append(dict(base_b, kw={}, ops=[pr, o, ((), ("validate", True))], kind="matrix-objb"))
+    # constructor keywords: the object is handed to Config.__init__
+    for d in sub_srcs[:4]:
+        cases.append(dict(base, kw={"sub": Obj(("sub",), d)}, ops=[((), ("validate", True)), (K("sub"), ("set", "a", 3, "attr"))], kind="matrix-ctor"))
+    cases.append(dict(base, kw={"sub": Obj(("sub",), sub_srcs[1]), "n": 7}, ops=[((), ("reset", "sub"))], kind="matrix-ctor"))
+    for k in ("n", "s", "items", "nokey"):
+        cases.append(dict(base, kw={k: Obj(("sub",), [])}, ops=[], kind="matrix-ctor"))
+    for d in typed_srcs:
+        cases.append(dict(base_b, kw={"typed": Obj(("typed",), d)}, ops=[((), ("validate", False)), ((), ("validate", True))], kind="matrix-ctor"))
+        cases.append(dict(base_b, kw={"typed": Obj(("typed",), d), "rows": [{"n": 1}]}, ops=[((), ("validate", False))], kind="matrix-ctor"))
     # the list operations again on a configuration whose list already holds two items (constructor keyword)
     for o in ops:
         touches_list = (o[1][0] in ("append", "insert", "setidx") or (o[1][0] in ("set", "reset") and o[1][1] == "items")
@@ -423,7 +799,7 @@ def generate_for(prop, rng, tier):
         cases += matrix_pairs(ops, base, 1, 0)
     n = 500 if tier == "quick" else 8000
     for _ in range(n):
-        c = rcase(rng, prop, 8 if tier == "quick" else 20)
+        c = rcase(rng, prop, 8 if tier == "quick" else 20, objs=True)
         c["kind"] = "random"
         cases.append(c)
     for c in cases:
@@ -472,7 +848,13 @@ def g_node(nd):
         return g_leaf(nd)
     if nd["t"] == "sub":
         return "(NSub %s %s %s)" % (g_bool(nd["dyn"]), g_list(nd["vals"], g_n), g_fields(nd["fields"]))
-    return "(NCfgList %s %s %s)" % (g_bool(nd["required"]), g_list(nd["vals"], g_n), g_fields(nd["fields"]))
+    return "(NCfgList %s %s %s %s)" % (g_bool(nd["required"]), g_list(nd["vals"], g_n), g_fields(nd["fields"]), g_dflt(nd.get("default")))
+
+
+def g_dflt(d):
+    if d is None:
+        return "None"
+    return "(Some (%s,%s))" % (g_bool(d["callable"]), g_list(d["maps"], gal))
 
 
 def g_fields(fields):
@@ -509,6 +891,56 @@ def g_op(o):
         return "(CLoads (Err %s))" % {"value": "EValue", "type": "EType", "key": "EKey", "index": "EIndex", "attribute": "EAttribute",
                                       "unicode": "EUnicode", "overflow": "EOverflow", "os": "EOS"}.get(parsed[1], "EOtherExn")
     raise Broken("bad op %r" % (o,))
+
+
+def g_xop(o, fields, gf=None):
+    """an operation of a history: a plain one wrapped, or the recipe of a side-built configuration object (the schema node it
+    is built from is printed in full: the model builds the object itself)"""
+    if o[0] in OBJ_KINDS:
+        src = obj_of(o)
+        nd = node_by_sp(fields, src.sp)
+        if o[0] == "setobj":
+            route = "RSet"
+        elif o[0] == "appendobj":
+            route = "RAppend"
+        elif o[0] == "setidxobj":
+            route = "(RSetIdx %d%%nat)" % o[2]
+        else:
+            route = "(RInsert %s)" % (g_z(o[2]) if o[2] >= 0 else "(%d)" % o[2])
+        return "(XObj %s %s %s)" % (route, g_str(o[1]), g_src(src, nd, gf))
+    return "(XOp %s)" % g_op(o)
+
+
+def g_src(src, nd, gf=None):
+    sdyn = nd["dyn"] if nd["t"] == "sub" else False
+    dops = g_list(src.ops, lambda po: "(%s,%s)" % (g_ps(po[0]), g_op(po[1])))
+    return "%s %s %s %s" % (g_bool(sdyn), g_list(nd["vals"], g_n), (gf or g_fields)(nd["fields"]), dops)
+
+
+def g_route(kind, i):
+    if kind == "setobj":
+        return "RSet"
+    if kind == "appendobj":
+        return "RAppend"
+    if kind == "setidxobj":
+        return "(RSetIdx %d%%nat)" % i
+    return "(RInsert %s)" % (g_z(i) if i >= 0 else "(%d)" % i)
+
+
+def g_pop(po, fields, gf=None):
+    ps, o = po
+    if o[0] == "again":
+        dops = g_list(o[4], lambda q: "(%s,%s)" % (g_ps(q[0]), g_op(q[1])))
+        return "(%s,(XAgain %s %s %s))" % (g_ps(ps), g_route(o[1], o[3]), g_str(o[2]), dops)
+    if o[0] == "alias":
+        return "(%s,(XOp %s))" % (g_ps(list(ps) + list(o[1])), g_op(o[2]))
+    return "(%s,%s)" % (g_ps(ps), g_xop(o, fields, gf))
+
+
+def g_kwv(v, fields):
+    if isinstance(v, Obj):
+        return "(KObj %s)" % g_src(v, node_by_sp(fields, v.sp))
+    return "(KV %s)" % gal(v)
 
 
 # ---------------------------------------------------------------------------------------------
@@ -587,8 +1019,8 @@ def parse_direct(fmt, doc, tree):
 
 def gcase(c):
     vt = g_list(c["vt"], lambda v: "(%s,(%s,%s))" % (g_n(v[0]), g_str(v[1]), g_str(v[2])))
-    kw = g_list(c["kw"].items(), lambda kv: "(%s,%s)" % (g_str(kv[0]), gal(kv[1])))
-    ops = g_list(c["ops"], lambda po: "(%s,%s)" % (g_ps(po[0]), g_op(po[1])))
+    kw = g_list(c["kw"].items(), lambda kv: "(%s,%s)" % (g_str(kv[0]), g_kwv(kv[1], c["fields"])))
+    ops = g_list(c["ops"], lambda po: g_pop(po, c["fields"]))
     return "(%s, %s, %s, %s, %s, %s)" % (vt, g_bool(c["dyn"]), g_list(c["vals"], g_n), g_fields(c["fields"]), kw, ops)
 
 
@@ -601,6 +1033,11 @@ class Built:
         from cincoconfig import Schema, ListField, IntField, StringField, BoolField, FeatureFlagField, AnyField, make_type
         self.counter = itertools.count()
         self.ntypes = 0
+        self.makers = {}        # static schema path -> callable building a fresh, parentless configuration of that node
+        self.keep = []          # side-built configurations stay alive: id() must not be reused within a case
+        CURRENT[0] = self
+        LAST_OBJ[0] = None
+        KEPT[0] = None
         self.vt = {n: (k, bad) for n, k, bad in c["vt"]}
         self.validator_log = []
 
@@ -642,23 +1079,33 @@ class Built:
                 return FeatureFlagField(**kw)
             return AnyField(**kw)
 
-        def mk_schema(fields, dyn, vals):
+        def mk_schema(fields, dyn, vals, sp=()):
             s = Schema(dynamic=dyn)
             for k, nd in fields:
                 if nd["t"] == "leaf":
                     s._add_field(k, mk_leaf(nd))
                 elif nd["t"] == "sub":
-                    sub = mk_schema(nd["fields"], nd["dyn"], nd["vals"])
+                    sub = mk_schema(nd["fields"], nd["dyn"], nd["vals"], sp + (k,))
                     if nd.get("ct"):
                         self.ntypes += 1
                         sub = make_type(sub, "CT%d" % self.ntypes)
                     s._add_field(k, sub)
+                    self.makers[sp + (k,)] = sub          # schema.sub() / the configuration type: CT()
                 else:
-                    item = mk_schema(nd["fields"], False, nd["vals"])
+                    item = mk_schema(nd["fields"], False, nd["vals"], sp + (k,))
                     if nd.get("ct"):
                         self.ntypes += 1
                         item = make_type(item, "IT%d" % self.ntypes)
-                    s._add_field(k, ListField(item, required=nd["required"]))
+                    lkw = {}
+                    if nd.get("default") is not None:
+                        maps = copy.deepcopy(nd["default"]["maps"])
+                        if nd["default"]["callable"]:
+                            # one more evaluation in the shared count of callable defaults, a new list of new maps every time
+                            lkw["default"] = lambda maps=maps: (next(self.counter), copy.deepcopy(maps))[1]
+                        else:
+                            lkw["default"] = maps
+                    s._add_field(k, ListField(item, required=nd["required"], **lkw))
+                    self.makers[sp + (k,)] = item         # the item schema / item type
             for n in vals:
                 s._validators.append(mk_validator(n))
             return s
@@ -741,15 +1188,66 @@ def dotted_of(ps, k):
     return None
 
 
+CURRENT = [None]        # the Built of the case being run (side-built objects need its schema objects)
+LAST_OBJ = [None]       # the configuration object handed over last
+
+
+def build_detached(b, src):
+    """schema.sub() / CT() / item_schema(): a fresh configuration without parent, then the recipe's operations on it"""
+    obj = b.makers[src.sp]()
+    b.keep.append(obj)
+    for dps, dop in src.ops:
+        apply_op(obj, dps, dop)
+        b.keep += [x for _, x in walk_cfgs(obj)]
+    return obj
+
+
+def make_kw(b, c):
+    return {k: (build_detached(b, v) if isinstance(v, Obj) else copy.deepcopy(v)) for k, v in c["kw"].items()}
+
+
+KEPT = [None]           # the object offered last, as long as the caller is the only one holding it (it was not taken)
+
+
 def apply_op(root, ps, o):
     """returns the outcome; mirrors exactly what a user would write"""
+    if o[0] == "again":
+        obj = KEPT[0]
+        if obj is None:
+            return "unmodelled"       # the object was taken: offering it again would hold it in two places (outside the model)
+        for dps, dop in o[4]:
+            apply_op(obj, dps, dop)
+            CURRENT[0].keep += [x for _, x in walk_cfgs(obj)]
+        norm = (o[1], o[2], None, "attr") if o[1] == "setobj" else (o[1], o[2], None) if o[1] == "appendobj" else (o[1], o[2], o[3], None)
+        out = _apply_op(root, ps, norm, obj)
+    elif o[0] in OBJ_KINDS:
+        obj = build_detached(CURRENT[0], obj_of(o))      # built before anything else happens, as in the model
+        out = _apply_op(root, ps, o, obj)
+    else:
+        return _apply_op(root, ps, o, None)
+    LAST_OBJ[0] = obj
+    KEPT[0] = None if out == "ok" else obj
+    return out
+
+
+def _apply_op(root, ps, o, obj):
     from cincoconfig import reset_value, Schema, ListField
     from cincoconfig.fields.list_field import ListProxy
+    if o[0] == "alias":
+        if LAST_OBJ[0] is None:
+            return "nav"
+        return apply_op(LAST_OBJ[0], tuple(o[1][1:]), o[2])
     cfg = navigate(root, ps)
     if cfg is None:
         return "nav"
     try:
-        if o[0] == "set":
+        if o[0] == "setobj":
+            d = dotted_of(ps, o[1]) if o[3] == "dotted" else None
+            if d is not None:
+                root[d] = obj
+            else:
+                setattr(cfg, o[1], obj)
+        elif o[0] == "set":
             d = dotted_of(ps, o[1]) if o[3] == "dotted" else None
             x = copy.deepcopy(o[2])
             if d is not None:
@@ -776,6 +1274,12 @@ def apply_op(root, ps, o):
                 val.append(copy.deepcopy(o[2]))
             elif o[0] == "insert":
                 val.insert(o[2], copy.deepcopy(o[3]))
+            elif o[0] == "appendobj":
+                val.append(obj)
+            elif o[0] == "insertobj":
+                val.insert(o[2], obj)
+            elif o[0] == "setidxobj":
+                val[o[2]] = obj
             else:
                 val[o[2]] = copy.deepcopy(o[3])
     except Exception as e:  # noqa
@@ -792,7 +1296,7 @@ def impl(c):
     c["_built"] = b
     keep = []           # keep every configuration object alive so that id() stays unique
     try:
-        root = b.schema(**copy.deepcopy(c["kw"]))
+        root = b.schema(**make_kw(b, c))
     except Exception as e:  # noqa
         c["_ctor_exc"] = e
         return (("err", errkind(e)),)
@@ -807,11 +1311,26 @@ def impl(c):
     for ps, o in c["ops"]:
         b.validator_log.clear()
         LAST_TEXT[0] = None
+        via_alias = o[0] == "alias"
+        in_tree = None
+        if via_alias:
+            # for the oracles this is the inner operation, addressed to where the object sits in the tree
+            in_tree = LAST_OBJ[0] is not None and navigate(root, tuple(ps) + (o[1][0],)) is LAST_OBJ[0]
+            alias_out = apply_op(root, ps, o)
+            ps, o = tuple(ps) + tuple(o[1]), o[2]
+        again = o[0] == "again"
+        if again:
+            # for the oracles: the underlying hand-over (the recipe of the object is not needed there)
+            o = (o[1], o[2], None, "attr") if o[1] == "setobj" else (o[1], o[2], None) if o[1] == "appendobj" else (o[1], o[2], o[3], None)
         target = navigate(root, ps)
         tpath = None
         if target is not None:
             tpath = [p for p, obj in walk_cfgs(root) if obj is target][0]
-        out = apply_op(root, ps, o)
+        out = alias_out if via_alias else apply_op(root, ps, c["ops"][len(trace)][1] if again else o)
+        stored = None
+        if o[0] in OBJ_KINDS and out == "ok" and target is not None:
+            held = target._data.get(o[1])
+            stored = (held is LAST_OBJ[0]) if o[0] == "setobj" else any(it is LAST_OBJ[0] for it in held)
         after = walk_cfgs(root)
         keep += [obj for _, obj in after]
         ids = {p: id(obj) for p, obj in after}
@@ -861,7 +1380,8 @@ def impl(c):
                     elif got != stored or type(got) is not type(stored):
                         readback.append("reading %s by %s yields %r, the configuration holds %r" % (pjoin(pth, key), how, got, stored))
         trace.append({"ps": ps, "op": o, "out": out, "before": prev, "after": snap, "same": same, "tpath": tpath, "readback": readback,
-                      "vlog": list(b.validator_log), "both": both, "defined_api": defined_api, "text": LAST_TEXT[0]})
+                      "vlog": list(b.validator_log), "both": both, "defined_api": defined_api, "text": LAST_TEXT[0],
+                      "stored": stored, "alias": via_alias, "in_tree": in_tree, "again": again})
         steps.append((out if not (isinstance(out, tuple) and out[0] == "err") else ("err", out[1]), snap, same))
         before_ids = ids
         prev = snap
@@ -1015,20 +1535,29 @@ def oracle_for(prop, c, obs):
                     bad.append("fresh configuration exposes %r for %s, declared default %r" % (data.get(k), pjoin(path, k), nd["default"]))
                 if nd["t"] == "sub":
                     fresh(nd["fields"], data[k], pjoin(path, k))
+                if nd["t"] == "cfglist":
+                    want = None if nd.get("default") is None else len(nd["default"]["maps"])
+                    got = None if data.get(k) is None else (len(data[k].items) if isinstance(data.get(k), Proxy) else "?")
+                    if got != want:
+                        bad.append("fresh configuration holds %r items in %s, the declared default has %r" % (got, pjoin(path, k), want))
         fresh(fields, first, "")
     for st in c.get("_trace", []):
         o, out, before, after = st["op"], st["out"], st["before"], st["after"]
-        if out == "nav":
+        if out in ("nav", "unmodelled"):
             if canon_snap(before) != canon_snap(after):
                 bad.append("harness navigation changed the configuration")
             continue
         is_err = isinstance(out, tuple) and out[0] == "err"
         tsteps = st["ps"]
+        if st.get("alias") and not st.get("in_tree"):
+            bad.append("after an accepted hand-over the configuration does not hold the object that was handed over (%r)" % (st["ps"],))
+        if o[0] in OBJ_KINDS and out == "ok" and st.get("stored") is False:
+            bad.append("accepted %s of a configuration object: the configuration holds something else than that object" % o[0])
         if prop == "C06":
             if is_err and o[0] == "loads" and parse_direct(o[1], make_document(o[1], o[2], o[3]), o[2])[0] == "err":
                 if canon_snap(before) != canon_snap(after) or not all(st["same"].values()):
                     bad.append("a %s document that does not parse (%s) changed the configuration" % (o[1], o[3]))
-            if is_err and o[0] in ("set", "append", "setidx", "insert"):
+            if is_err and o[0] in ("set", "append", "setidx", "insert") + OBJ_KINDS:
                 if canon_snap(before) != canon_snap(after):
                     bad.append("rejected %s %r changed the configuration" % (o[0], o[1:3]))
                 if not all(st["same"].values()):
@@ -1036,6 +1565,10 @@ def oracle_for(prop, c, obs):
         if prop == "C01":
             check_wf(fields, after, "", bad)
             bad.extend(st.get("readback") or [])
+            if out == "ok" and o[0] in OBJ_KINDS:
+                # frame: nothing but the slot that took the object changes
+                if canon_snap(strip_key(before, tsteps, o[1])) != canon_snap(strip_key(after, tsteps, o[1])):
+                    bad.append("accepted %s on %s changed another field" % (o[0], o[1]))
             if out == "ok" and o[0] == "set":
                 # frame: nothing but the assigned slot changes
                 if canon_snap(strip_key(before, tsteps, o[1])) != canon_snap(strip_key(after, tsteps, o[1])):
@@ -1052,8 +1585,19 @@ def oracle_for(prop, c, obs):
                 if api != mark:
                     bad.append("is_value_defined(config, %r) answers %r, the field %s user-defined" % (pth, api, "is" if mark else "is not"))
                     break
+        if prop == "C12" and o[0] in OBJ_KINDS[1:]:
+            # items handed to a list of configurations: accepted or refused, no default mark moves anywhere
+            def marks(snap, path, acc):
+                acc[path] = list(snap[1])
+                for kk, vv in snap[0].items():
+                    if isinstance(vv, tuple) and len(vv) == 3 and isinstance(vv[0], dict):
+                        marks(vv, pjoin(path, kk), acc)
+                return acc
+            mb, ma = marks(before, "", {}), marks(after, "", {})
+            if any(ma.get(pp) != mm for pp, mm in mb.items()):
+                bad.append("%s on %s (%s) changed default marks" % (o[0], o[1], "accepted" if out == "ok" else "refused"))
         if prop == "C12":
-            if o[0] == "set":
+            if o[0] in ("set", "setobj"):
                 tb = get_cfg_snap(before, tsteps)
                 ta = get_cfg_snap(after, tsteps)
                 if out == "ok":
@@ -1073,6 +1617,12 @@ def oracle_for(prop, c, obs):
                 nd = dict(node_at(fields, tsteps)).get(o[1])
                 if nd is not None and nd["t"] == "leaf" and not nd["callable"] and ta[0].get(o[1]) != nd["default"]:
                     bad.append("reset of %s gives %r, declared default %r" % (o[1], ta[0].get(o[1]), nd["default"]))
+                if nd is not None and nd["t"] == "cfglist" and nd.get("default") is not None:
+                    held = ta[0].get(o[1])
+                    if not isinstance(held, Proxy) or len(held.items) != len(nd["default"]["maps"]):
+                        bad.append("reset of %s does not restore the declared default items" % o[1])
+                    elif not all(st["same"].get("%s[%d]" % (pjoin(st["tpath"] or "", o[1]), i)) is False for i in range(len(held.items))):
+                        bad.append("reset of %s kept configuration objects of the previous value" % o[1])
                 if nd is not None and nd["t"] != "leaf":
                     exp = fresh_snapshot(nd)
                     if exp is not NotImplemented and canon_snap(ta[0].get(o[1])) != canon_snap(exp):
@@ -1125,6 +1675,30 @@ def oracle_for(prop, c, obs):
                     bad.append("F33: undeclared key inside a map raises AttributeError")
                 else:
                     bad.append("loading a %s document that parses to %r is rejected with %r instead of a ValidationError" % (o[1], loaded, kind))
+        if prop == "C15" and is_err and o[0] in OBJ_KINDS:
+            kind = out[1]
+            tpath = st["tpath"]
+            declared = dict(node_at(fields, tsteps))
+            text = st.get("text") or ""
+            if o[0] == "setobj":
+                if o[1] not in declared:
+                    pass      # an undeclared key is not "a value for a declared field"
+                elif not (isinstance(kind, tuple) and kind[0] == "validation"):
+                    bad.append("configuration object assigned to %s rejected with %r instead of a ValidationError" % (o[1], kind))
+                elif kind[1] != pjoin(tpath, o[1]):
+                    bad.append("error path %r, expected %r" % (kind[1], pjoin(tpath, o[1])))
+            else:
+                held = get_cfg_snap(before, tsteps)[0].get(o[1])
+                n = len(held.items) if isinstance(held, Proxy) else 0
+                want = "%s[%d]" % (pjoin(tpath, o[1]), n)
+                if o[0] == "setidxobj" and kind == "index" and not (0 <= o[2] < n):
+                    pass      # an index outside the list: the list's own IndexError, the object itself was acceptable
+                elif not (isinstance(kind, tuple) and kind[0] == "validation"):
+                    bad.append("configuration object offered to list %s rejected with %r instead of a ValidationError" % (o[1], kind))
+                elif not (kind[1] == want or kind[1].startswith(want + ".") or kind[1].startswith(want + "[")):
+                    bad.append("error path %r of a refused list item does not lie at or below %r (the position it would have had)" % (kind[1], want))
+            if isinstance(kind, tuple) and kind[0] == "validation" and kind[1] and not (text.startswith(kind[1] + ":") or text.startswith(kind[1] + " (")):
+                bad.append("the error text %r does not start with the reference path %r" % (text[:80], kind[1]))
         if prop == "C11":
             both = st["both"]
             if both is not None:
@@ -1148,7 +1722,17 @@ def oracle_for(prop, c, obs):
                 if nd is not None and nd["t"] == "cfglist" and isinstance(ta[0].get(o[1]), Proxy):
                     for i, it in enumerate(ta[0][o[1]].items):
                         check_required(nd["fields"], it, "%s[%d]" % (pjoin(st["tpath"] or "", o[1]), i), bad, c["_built"].vt, c, tsteps)
-            if out == "ok" and o[0] in ("append", "insert", "setidx"):
+            if o[0] in OBJ_KINDS and both is not None and not isinstance(both[0], str):
+                # whatever became of the object (taken unvalidated by a sub-configuration slot, validated and taken or refused
+                # by a list): the NEXT whole-configuration validation fails exactly when, by the declarations alone, a required
+                # field is unset or a validator refuses something in the state reached
+                findings = []
+                check_required(fields, after, "", findings, c["_built"].vt, c, ())
+                if bool(findings) != (both[1] is not None):
+                    bad.append("after %s of a configuration object: validate() %s, but by the declarations the state reached %s"
+                               % (o[0], "raises %r" % (both[1],) if both[1] is not None else "returns",
+                                  "is invalid: %s" % findings[0] if findings else "is valid"))
+            if out == "ok" and o[0] in ("append", "insert", "setidx") + OBJ_KINDS[1:]:
                 # "items of configuration lists are held to the same rule when they are loaded or inserted"
                 tb = get_cfg_snap(before, tsteps)
                 ta = get_cfg_snap(after, tsteps)
@@ -1185,7 +1769,7 @@ def fresh_snapshot(nd):
     if nd["t"] == "leaf":
         return NotImplemented if nd["callable"] else copy.deepcopy(nd["default"])
     if nd["t"] == "cfglist":
-        return None
+        return None if nd.get("default") is None else NotImplemented      # (default items: see the C12 clause on reset below)
     data = {}
     for k, sub in nd["fields"]:
         v = fresh_snapshot(sub)
@@ -1319,6 +1903,8 @@ def tags(c, obs):
         o = st["op"]
         res = out if isinstance(out, str) else out[0]
         t.add("%s:%s" % (o[0], res))
+        if st.get("again"):
+            t.add("again:%s" % res)
         if isinstance(out, tuple) and out[0] == "err":
             k = out[1]
             t.add("err:" + (k[0] if isinstance(k, tuple) else k))
